@@ -30,6 +30,10 @@ enum PoeticNumberLiteralTemplateItem {
 struct PoeticNumberLiteralTemplate(Vec<PoeticNumberLiteralTemplateItem>);
 
 impl PoeticNumberLiteralTemplate {
+    // negative and non-finite values render with characters other than digits and '.'
+    fn has_poetic_spelling(val: NumericConstant) -> bool {
+        val.value.is_finite() && val.value.is_sign_positive()
+    }
     fn from_value(val: NumericConstant) -> Self {
         Self(
             val.to_string()
@@ -77,12 +81,14 @@ impl PoeticNumberLiteralTemplate {
     }
 }
 
-fn numeric_suggestion_payload(var: &impl Render, val: NumericConstant) -> String {
-    format!(
-        "{} is {}",
-        var.render(),
-        PoeticNumberLiteralTemplate::from_value(val).as_text()
-    )
+fn numeric_suggestion_payload(var: &impl Render, val: NumericConstant) -> Option<String> {
+    PoeticNumberLiteralTemplate::has_poetic_spelling(val).then(|| {
+        format!(
+            "{} is {}",
+            var.render(),
+            PoeticNumberLiteralTemplate::from_value(val).as_text()
+        )
+    })
 }
 
 fn string_suggestion_payload(var: &impl Render, val: &StringConstant) -> String {
@@ -95,19 +101,19 @@ fn suggestion_text(payload: &str) -> String {
 
 fn build_diag<Constant: Display>(
     var: &impl Render,
-    suggestion: &str,
+    suggestion: Option<&str>,
     val: Constant,
     line: u32,
 ) -> DiagsBuilder {
     DiagsBuilder::One(Diag {
         issue: issue_text(var, &val),
-        suggestions: vec![suggestion_text(suggestion)],
+        suggestions: suggestion.map(suggestion_text).into_iter().collect(),
         line,
     })
 }
 
 fn build_numeric_diag(var: &impl Render, val: NumericConstant, line: u32) -> DiagsBuilder {
-    build_diag(var, &numeric_suggestion_payload(var, val), val, line)
+    build_diag(var, numeric_suggestion_payload(var, val).as_deref(), val, line)
 }
 
 fn maybe_build_string_diag(
@@ -115,16 +121,18 @@ fn maybe_build_string_diag(
     val: Option<StringConstant>,
     line: u32,
 ) -> DiagsBuilder {
-    val.map(|val| build_diag(var, &string_suggestion_payload(var, &val), val, line))
+    val.map(|val| build_diag(var, Some(&string_suggestion_payload(var, &val)), val, line))
         .unwrap_or_default()
 }
 
-fn array_push_suggestion_payload(var: &impl Render, val: NumericConstant) -> String {
-    format!(
-        "Rock {} like {}",
-        var.render(),
-        PoeticNumberLiteralTemplate::from_value(val).as_text()
-    )
+fn array_push_suggestion_payload(var: &impl Render, val: NumericConstant) -> Option<String> {
+    PoeticNumberLiteralTemplate::has_poetic_spelling(val).then(|| {
+        format!(
+            "Rock {} like {}",
+            var.render(),
+            PoeticNumberLiteralTemplate::from_value(val).as_text()
+        )
+    })
 }
 
 fn maybe_build_numeric_array_push_diag(
@@ -132,7 +140,7 @@ fn maybe_build_numeric_array_push_diag(
     val: Option<NumericConstant>,
     line: u32,
 ) -> DiagsBuilder {
-    val.map(|val| build_diag(var, &array_push_suggestion_payload(var, val), val, line))
+    val.map(|val| build_diag(var, array_push_suggestion_payload(var, val).as_deref(), val, line))
         .unwrap_or_default()
 }
 
